@@ -150,7 +150,7 @@ func (g *rtGen) tripDesc(r *Rng, k int, named bool) map[string]any {
 		d["tripId"] = bstr(fmt.Sprintf(f, k))
 	}
 	if r.P(2, 3) {
-		d["routeId"] = bstr(r.Pick([]string{"A", "M", "GS", "1", ""}))
+		d["routeId"] = bstr(r.Pick([]string{"A", "M", "GS", "1", "", "a", " A", "A ", "R&D", "é", "0"}))
 	}
 	if r.P(1, 2) {
 		d["directionId"] = r.Pick3(0, 1, 7)
@@ -167,7 +167,7 @@ func (g *rtGen) tripDesc(r *Rng, k int, named bool) map[string]any {
 	if g.nyctTrips && r.P(3, 4) {
 		n := map[string]any{}
 		if r.P(3, 4) {
-			n["trainId"] = bstr(r.Pick([]string{"06 0123+ PEL/BBR", "1A 1200 X/Y", "", "0B 0001 Z"}))
+			n["trainId"] = bstr(r.Pick([]string{"06 0123+ PEL/BBR", "1A 1200 X/Y", "", "0B 0001 Z", " ", "é"}))
 		}
 		if r.P(3, 4) {
 			n["isAssigned"] = r.Bool()
@@ -220,10 +220,10 @@ func (g *rtGen) stus(r *Rng, base int64) []any {
 		if g.nyctTrips && r.P(2, 3) {
 			n := map[string]any{}
 			if r.P(2, 3) {
-				n["scheduledTrack"] = bstr(r.Pick([]string{"1", "A2", ""}))
+				n["scheduledTrack"] = bstr(r.Pick([]string{"1", "A2", "", " ", "0", "é"}))
 			}
 			if r.P(1, 2) {
-				n["actualTrack"] = bstr(r.Pick([]string{"2", "B1", ""}))
+				n["actualTrack"] = bstr(r.Pick([]string{"2", "B1", "", " ", "0", "é"}))
 			}
 			s["nyct"] = n
 		}
@@ -304,10 +304,10 @@ var sortOrders = []string{":7", ":", "", "MTASBWY:A:19", "MTASBWY:M:2", "MTASBWY
 func (g *rtGen) selector(r *Rng, trips []map[string]any) map[string]any {
 	s := map[string]any{}
 	if r.P(1, 4) {
-		s["agencyId"] = bstr(r.Pick([]string{"MTA", ""}))
+		s["agencyId"] = bstr(r.Pick([]string{"MTA", "", "mta", " MTA", "M&T", "0"}))
 	}
 	if r.P(1, 3) {
-		s["routeId"] = bstr(r.Pick([]string{"A", "M", "B1", ""}))
+		s["routeId"] = bstr(r.Pick([]string{"A", "M", "B1", "", "a", "A ", "Q44", "é"}))
 	}
 	if r.P(1, 4) {
 		// every value around the known ones (0-7, 11, 12), the gap 8-10, and far values
@@ -329,7 +329,7 @@ func (g *rtGen) selector(r *Rng, trips []map[string]any) map[string]any {
 			s["trip"] = deepCopyJSON(trips[r.Intn(len(trips))])
 		}
 	case 1, 2: // route-only descriptor (the MTA bus alerts shape)
-		d := map[string]any{"routeId": bstr(r.Pick([]string{"B1", "B2", "A", "Q44", ""}))}
+		d := map[string]any{"routeId": bstr(r.Pick([]string{"B1", "B2", "A", "Q44", "", "a", "A ", "é", "b1"}))}
 		if r.P(1, 2) {
 			d["directionId"] = r.Intn(2)
 		}
